@@ -9,6 +9,10 @@ Streams (DESIGN.md 3 C19, docs/C19.md):
   blt        random elections through io.blt.dumps/loads, model (unit 172) vs implementation + the
              declarative clause loads(dumps(x)) == x
   blt-tokens random token lines rendered to text -> io.blt.loads vs model load_lines (unit 173), incl. rejections
+  stv-model  random elections + systems through io.stv.dump_lines/dumps/loads vs Model/StvFile.v (unit 174) + the declarative
+             clause for the elections the theorem C19_stv_roundtrip is about (props/c19_stv.py)
+  stv-lines  written files mutated / truncated, header soups, structured mostly-valid files, ordered ballots, BLT mode,
+             repeated rankings -> io.stv.loads vs the model reader (unit 175), incl. rejections; stv-tables: the closed tables
   stv        random elections through io.stv.dumps/loads (both modes), declarative clause on the implementation
   malformed  mutated / truncated BLT and STV texts: a result or the format's parse error, nothing else
 """
@@ -18,13 +22,14 @@ from decimal import Decimal
 import common
 from common import sx, ok
 from units import BLOCK
+from props import c19_stv
 
 ID = 'C19'
 LEVEL = 'proof'
 U0 = BLOCK['C19']
 TIE = {'persist.serialize_value / deserialize_value / deserialize_typed / deserialize_class / from_dict': 'correspondence (units 170, 171)',
        'io.blt dump_lines / load_lines (token level)': 'correspondence (units 172, 173)',
-       'io.stv dump_lines / load_lines': 'implementation-side clauses only (no model)',
+       'io.stv dump_lines / dumps / load_lines / loads (character level, Model/StvFile.v)': 'correspondence (units 174, 175; closed tables unit 176 checked exhaustively over all code points)',
        'to_dict of the 109 votelib classes': 'implementation-side clauses only (to_dict equality + behaviour equality)'}
 RULE = ('corpus; codec: random values of the pval grammar to depth 4 (atoms, Fraction, Decimal incl. exponents and specials, tuple, frozenset, '
         'list, set, str-keyed and typed dicts incl. reserved keys, objects of three harness classes incl. an unloadable one, resolvable and '
@@ -34,13 +39,21 @@ RULE = ('corpus; codec: random values of the pval grammar to depth 4 (atoms, Fra
         'blt/stv: random elections (1..7 candidates as str or Person, names with initials, punctuation, duplicate initials, digits, '
         'non-ASCII; any subset withdrawn; distinct rankings without shared ranks; int / Decimal / Fraction weights; optional title); '
         'blt-tokens: random token lines against the token-level parser model; malformed: character mutations, truncations, line shuffles '
-        'of valid files and token soups. non-trivial = nested value / constructor arguments given / withdrawn or non-int weight or title / '
+        'of valid files and token soups; stv-model: the same elections with a random system tree (VotingSystem / bare evaluator, FixedSeatCount or n_seats, '
+        'TieBreaking with CandidateNumberRanker / Sortitor, mandatory quota, 25 % systems the format cannot carry) written and reloaded by model and code, '
+        'boundary sets (26-30 candidates, exponent / long / unit-valued Decimals, zero and negative weights, empty rankings, ordinal nicknames, hostile names); '
+        'stv-lines: written files mutated by character (incl. superscript / Arabic-Indic digits, no-break and other Unicode spaces, Kelvin sign, dotted I), '
+        'truncated, shuffled, with inserted header lines; header soups; structured files with variants of every header line; ordered ballots; BLT mode '
+        'with header extras; repeated rankings with mixed multipliers. non-trivial = nested value / constructor arguments given / withdrawn or non-int weight or title / '
         'text that is rejected; distinct by case hash')
-PARTIAL = ['STV writer/parser: no Coq model; round trip and parse-error totality are checked on the implementation only',
+PARTIAL = ['STV: Decimal multipliers are an oracle of the model (Decimal(str) is not modelled); Decimal + Decimal rounding of a repeated ranking, the 4300-digit '
+           'int limit, candidates=None, shared ranks and the character level of the BLT content of a ballots=blt file are outside the model',
            'character level of BLT (str(num), split, # comments, quoting): not modelled, exercised by the blt / malformed streams',
            'per-class premise "the constructor stores its parameters unchanged" (classes stream): tested, not proved',
            'C19_rejects_full_statement (every non-reloadable value is refused when saving): refuted, see known findings']
 TRUSTED = ['CPython json, decimal (Decimal(str(d)) == d, str canonical) and fractions modules',
+           'harness instantiation of the record uenv of Model/StvFile.v (Unicode tables of the characters of a case, Decimal values of its multiplier strings) '
+           'and of the BLT reader argument (votelib.io.blt.load_lines on every suffix of the lines) from the running interpreter',
            'harness encoding of Python values as pval/jval wire terms (harness/props/c19.py to_wire/from_py)']
 ASSUMPTIONS = ['the environment record of Model/Persist.v (identifier tables, Decimal parser, class and callable tables) is instantiated by the '
                'harness from the running interpreter for the characters / classes / callables it uses']
@@ -1542,6 +1555,7 @@ DIFF = {
                 known_class=blt_known),
     'blt-tokens': dict(model_line=token_model_line, impl=token_impl, canon=token_canon, nontrivial=lambda c: True, spec=token_spec),
 }
+DIFF.update(c19_stv.DIFF)      # 'stv-model', 'stv-lines': Model/StvFile.v against votelib.io.stv
 
 
 def run_cases(ctx, name, stream, cases, limit=5):
@@ -1579,6 +1593,18 @@ def explore(ctx, widen=1):
               + list(blt_cases(ctx.rng, n(60, 600), special='empty-ranking')) + list(blt_cases(ctx.rng, n(60, 600), special='long-decimal')))
     run_cases(ctx, 'blt-hostile-names', 'blt', blt_cases(ctx.rng, n(100, 1500), hostile=True))
     run_cases(ctx, 'blt-tokens', 'blt-tokens', token_cases(ctx.rng, n(4000, 40000) * widen))
+    c19_stv.check_tables(ctx)
+    run_cases(ctx, 'stv-model', 'stv-model', c19_stv.model_cases(ctx.rng, gen_election, n(1500, 15000) * widen))
+    run_cases(ctx, 'stv-model-boundary', 'stv-model',
+              [c for sp, k in (('many', n(12, 80)), ('dec-exponent', n(40, 400)), ('empty-ranking', n(40, 400)), ('long-decimal', n(40, 400)),
+                               ('zero-weight', n(40, 400)), ('negative', n(40, 400)), ('unit-weights', n(60, 600)), ('ordinal', n(60, 600)))
+               for c in c19_stv.model_cases(ctx.rng, gen_election, k, special=sp)]
+              + list(c19_stv.model_cases(ctx.rng, gen_election, n(80, 800), hostile=True)))
+    run_cases(ctx, 'stv-lines', 'stv-lines', c19_stv.lines_cases(ctx.rng, gen_election, n(5000, 50000) * widen))
+    ctx.dist['stv-model:written-lines-differ-from-model'] = c19_stv.LINES_DIFFER[0]
+    if c19_stv.LINES_DIFFER[0]:
+        ctx.notes.append('stv-model: %d elections are written with other lines than the model writes (both texts are read alike by both readers: '
+                         'harmless rewrite of the writer, the round-trip theorem is then about the model writer only)' % c19_stv.LINES_DIFFER[0])
     stv_stream(ctx, n(1500, 15000) * widen)
     stv_stream(ctx, n(40, 400), special='many')
     stv_stream(ctx, n(40, 400), special='dec-exponent')
